@@ -108,7 +108,7 @@ def run_reader(image, reader, blocked, enc=None, cfg=None, limit=None, maxlen=No
     return o
 
 
-def run_tool(image, tool, blocked, enc_family, limit=None) -> Outcome:
+def run_tool(image, tool, blocked, enc_family, limit=None, encoding=None) -> Outcome:
     """tool: 'mci_ipm_to_csv' | 'mideu'.  The tool's `open` is shadowed by SimFS.open for the call."""
     m = sut.load()
     o = Outcome()
@@ -123,7 +123,7 @@ def run_tool(image, tool, blocked, enc_family, limit=None) -> Outcome:
             with bud:
                 if tool == "mci_ipm_to_csv":
                     rc = mod.cli_run(in_filename="in.ipm", out_filename="out.csv",
-                                     in_encoding=("cp500" if enc_family == "ebcdic" else "latin_1"),
+                                     in_encoding=encoding or ("cp500" if enc_family == "ebcdic" else "latin_1"),
                                      no1014blocking=not blocked, config_file=None, out_encoding="utf-8",
                                      debug=False)
                 else:
